@@ -14,6 +14,9 @@ func (reg *Registry[E]) ReadFrom(r io.Reader) (int64, error) {
 	if err != nil {
 		return n, err
 	}
+	if length < 0 {
+		return n, errors.New("registry: negative length: " + strconv.Itoa(int(length)))
+	}
 
 	reg.Clear()
 
@@ -51,6 +54,9 @@ func (reg *Registry[E]) ReadTagsFrom(r io.Reader) (int64, error) {
 	n, err := count.ReadFrom(r)
 	if err != nil {
 		return n, err
+	}
+	if count < 0 {
+		return n, errors.New("registry: negative tag count: " + strconv.Itoa(int(count)))
 	}
 
 	var tag pk.Identifier
